@@ -181,6 +181,27 @@ def main():
                 if extra:
                     bad("WritesOnlyOwnFamily:dispatch:%s=%s" % (f, v), dict(case=case, scale=scale, extra=sorted(extra)[:8]))
 
+    # ---- 2b. PatchKnownBad: the rewrite must not leak into the caller's dictionary nor into the next country's dispatch
+    for kb in tables.get("knownbad", []):
+        rep["dispatch_cases"] += 1
+        opts = copy.deepcopy(BASE_COUNTRY)
+        opts.update(kb["opts"])
+        snapshot = copy.deepcopy(opts)
+        try:
+            with contextlib.redirect_stdout(io.StringIO()):
+                c, t, loader = sr.set_depending_on_option(opts, country_data=rows[kb["cc"]])
+                c2, t2, loader2 = sr.set_depending_on_option(opts, country_data=rows["USA"])
+        except BaseException as ex:  # noqa
+            bad("Dispatch:exception:knownbad:%s" % kb["cc"], dict(case=kb, exc=repr(ex)[:120]))
+            continue
+        if opts != snapshot:
+            bad("NoCallerMutation:PatchKnownBad", dict(case=kb, got={k: opts[k] for k in opts if opts[k] != snapshot.get(k)}))
+        if c["DELAY"]["FEED_SHUTOFF_MONTHS"] != 0 or c["DELAY"]["BIOFUEL_SHUTOFF_MONTHS"] != 0:
+            bad("WritesAsDocumented:PatchKnownBad", dict(case=kb, got=c["DELAY"]))
+        want = {"continued": opts["NMONTHS"], "short_delayed_shutoff": 2, "long_delayed_shutoff": 3}[kb["opts"]["shutoff"]]
+        if c2["DELAY"]["FEED_SHUTOFF_MONTHS"] != want:
+            bad("NoCallerMutation:PatchKnownBad:next-country", dict(case=kb, got=c2["DELAY"]["FEED_SHUTOFF_MONTHS"], want=want))
+
     # ---- 3. numeric overrides
     from harness_presets_snapshot import BASE_COUNTRY2
     stock_csv = pd.read_csv("data/no_food_trade/animal_feed_data/FAOSTAT_head_and_slaughter.csv", index_col="iso3")
